@@ -276,7 +276,7 @@ func c17(e *Env) {
 		return
 	}
 	r := e.R
-	r.Rule("every type × {zero value, constructor result, arbitrary values (numbers of any bit pattern, text of any length incl. over-long and all-pad, lists of 0..17 elements, nil nested parts, nil/mismatched bodies; thorough: 70 000-element lists), every registered key with a nil body/extension, unregistered keys with and without a body, each nested pointer part nil in turn, every text length 0..2200 of every prefixed-text field, element counts 0..1100 of one list field per type, frames whose body must refuse (a list one element beyond its 16-bit count; a caller-supplied body returning an error)} × destination buffer history H1..H7 (fresh, random content, earlier frames filling most of the capacity, partly consumed, drained, garbage in spare capacity, header-sized spare capacity); plus every checksummed frame encoded four times in a row while its checksum service is unregistered (Remove / Clear); values with nil list elements or typed-nil bodies are excluded, as the property says. distinct_nontrivial = distinct structural hashes of the values encoded")
+	r.Rule("every type × {zero value, constructor result, arbitrary values (numbers of any bit pattern, text of any length incl. over-long and all-pad, lists of 0..17 elements, nil nested parts, nil/mismatched bodies; thorough: 70 000-element lists), every registered key with a nil body/extension, unregistered keys with and without a body, each nested pointer part nil in turn, every text length 0..2200 of every prefixed-text field, element counts 0..1100 of one list field per type, frames whose body must refuse (a list one element beyond its 16-bit count; a caller-supplied body returning an error)} × destination buffer history H1..H9 (fresh, random content, earlier frames filling most of the capacity, partly consumed, drained, garbage in spare capacity, header-sized spare capacity); plus every checksummed frame encoded four times in a row while its checksum service is unregistered (Remove / Clear); values with nil list elements or typed-nil bodies are excluded, as the property says. distinct_nontrivial = distinct structural hashes of the values encoded")
 	r.Explain("Oracle: Encode returns normally — nil error with bytes appended, or a non-nil error; a recovered panic or the death of the (child) process is a violation, with the pre-logged in-flight value as witness.")
 	r.Assume("values not generated are not covered")
 	outs := runChildren(e, e.Workers, 300*time.Second)
